@@ -179,3 +179,147 @@ func zzH_C12_builder() {
 	zzverif.Assert(VerifyYouVersionState(prev, curr) == nil, "verifier accepts what the builder derives")
 	zzverif.Reach("end")
 }
+
+// ---- chain-level harnesses ------------------------------------------------
+
+var zzC12DB map[uint64]*types.Header // the canonical headers the stubbed database knows
+
+//verif:replace (*$M/core.HeaderChain).GetHeaderByNumber zzC12GetHeaderByNumber
+
+func zzC12GetHeaderByNumber(hc *HeaderChain, number uint64) *types.Header { return zzC12DB[number] }
+
+const zzC12ChainMax = 4
+
+// zzH_C12_chain: no invariant assumed.  A chain of k headers starting right after a
+// header with no pending proposal goes through the real chain-level entry
+// (*BlockChain).VerifyYouVersionState2; the ghost (proposal round, window end,
+// in-window approvals) is computed from the history itself, and every switch must be
+// legitimate.  Also: the wrapper reports exactly the first pair the pairwise verifier rejects.
+func zzH_C12_chain() {
+	ps := zzC12Install()
+	k := zzverif.Bound("chain length", 3, zzC12ChainMax)
+	first, n0 := zzC12Header("h0")
+	cv := zzverif.Choose("h0.version", 3) + 1
+	zzverif.Assume(first.CurrVersion == params.YouVersion(cv))
+	// start: no proposal pending (genesis, or any block after a switch / a dropped proposal)
+	zzverif.Assume(first.NextVersion == 0 && first.NextApprovals == 0 && first.NextVoteBefore == 0 && first.NextSwitchOn == 0)
+	zzverif.Assume(n0 >= 1)
+	zzC12DB = map[uint64]*types.Header{n0: first}
+	chain := make([]*types.Header, k)
+	for i := range chain {
+		h, n := zzC12Header("h" + string(rune('1'+i)))
+		zzverif.Assume(n == n0+uint64(i)+1)
+		chain[i] = h
+	}
+	bc := &BlockChain{hc: &HeaderChain{}}
+	var idx int
+	var err error
+	halted := false
+	func() {
+		defer func() {
+			if r := recover(); r != nil {
+				halted = true
+			}
+		}()
+		idx, err = bc.VerifyYouVersionState2(chain)
+	}()
+	if halted {
+		zzverif.Reach("halted")
+		return
+	}
+	// replay the history pairwise with the ghost
+	g := zzC12Ghost{}
+	prev, n := first, n0
+	late := false
+	for i := 0; i < k; i++ {
+		curr, cn := chain[i], n+1
+		perr, ph := zzC12Verify(prev, curr)
+		zzverif.Assert(!ph, "pairwise verifier halts only where the chain entry halted")
+		if perr != nil {
+			zzverif.Reach("chain-rejected")
+			zzverif.Assert(err != nil && idx == i, "chain entry reports the first rejected header")
+			return
+		}
+		p := ps[cv]
+		if prev.NextVersion != 0 && cn == prev.NextSwitchOn {
+			zzverif.Reach("chain-switched")
+			zzverif.Assert(curr.CurrVersion == prev.NextVersion, "switch only to the announced version")
+			zzverif.AssertKF(g.naw >= p.T, "switch only with threshold approvals cast inside the voting window", "C12-late-approval", late)
+			zzverif.Assert(cn >= g.vb0+p.m, "switch not before window end + minimum wait")
+			zzverif.Assert(g.vb0 == g.pr+p.R, "window length is the announced number of vote rounds")
+			cv = zzverif.Choose("switched.version", 3) + 1
+			zzverif.Assume(curr.CurrVersion == params.YouVersion(cv))
+			g, late = zzC12Ghost{}, false
+		} else {
+			zzverif.Assert(curr.CurrVersion == prev.CurrVersion, "version changes only at the announced round of a pending proposal")
+			switch {
+			case curr.NextVersion == 0:
+				if prev.NextVersion != 0 {
+					zzverif.Reach("chain-cleared")
+				}
+				g, late = zzC12Ghost{}, false
+			case prev.NextVersion == 0:
+				zzverif.Reach("chain-proposed")
+				g = zzC12Ghost{pr: cn, vb0: curr.NextVoteBefore, naw: 1}
+			default:
+				zzverif.Assert(curr.NextApprovals == prev.NextApprovals || curr.NextApprovals == prev.NextApprovals+1, "at most one approval per block")
+				zzverif.Assert(curr.NextSwitchOn == prev.NextSwitchOn && curr.NextVersion == prev.NextVersion, "announced version and round are immutable")
+				if cn < g.vb0 {
+					g.naw += curr.NextApprovals - prev.NextApprovals
+				} else if cn == g.vb0 && prev.NextApprovals < p.T && curr.NextApprovals == prev.NextApprovals+1 {
+					late = true
+				}
+			}
+		}
+		prev, n = curr, cn
+	}
+	zzverif.Assert(err == nil, "chain entry accepts a chain whose every pair the verifier accepts")
+	zzverif.Reach("chain-accepted")
+}
+
+// zzH_C12_lookback: the parameters used for round r are those of the header 8 rounds
+// back (round 0 for r<=8), taken from the database or, failing that, from the batch of
+// parents being verified together; the lookup never indexes outside the batch.
+func zzH_C12_lookback() {
+	zzC12Install()
+	const back = 8
+	np := int(zzverif.Choose("parents", 11)) // 0..10 parents, contiguous, ascending (the caller passes headers[:i])
+	first := zzverif.U64("firstNum")
+	zzverif.Assume(first >= 1 && first < 1<<40)
+	parents := make([]*types.Header, np)
+	for i := range parents {
+		parents[i] = &types.Header{Number: new(big.Int).SetUint64(first + uint64(i)), CurrVersion: params.YouVersion(zzverif.U64("pv"))}
+	}
+	r := zzverif.U64("r")
+	zzverif.Assume(r < 1<<40)
+	if np > 0 {
+		// caller contract (ucon.VerifyHeaders): the header being verified is the one right after the batch
+		zzverif.Assume(r == first+uint64(np))
+	}
+	var pr uint64
+	if r > back {
+		pr = r - back
+	}
+	zzC12DB = map[uint64]*types.Header{}
+	var want *types.Header
+	if zzverif.Bool("inDB") {
+		want = &types.Header{Number: new(big.Int).SetUint64(pr), CurrVersion: params.YouVersion(zzverif.U64("dbv"))}
+		zzC12DB[pr] = want
+	} else if np > 0 && pr >= first {
+		want = parents[pr-first]
+	}
+	hc := &HeaderChain{}
+	yp, err := hc.VersionForRoundWithParents(r, parents)
+	if want == nil {
+		zzverif.Reach("lookback-missing")
+		zzverif.Assert(err != nil && yp == nil, "no header 8 rounds back: error")
+		return
+	}
+	if want.CurrVersion < 1 || want.CurrVersion > 3 {
+		zzverif.Reach("lookback-unknown-version")
+		zzverif.Assert(err != nil, "unknown version 8 rounds back: error")
+		return
+	}
+	zzverif.Reach("lookback-found")
+	zzverif.Assert(err == nil && yp != nil && yp.Version == want.CurrVersion, "parameters of the version active 8 rounds back")
+}
